@@ -28,7 +28,7 @@ for a, b in (('x', 'y'), ('y', 'x')):
         (_mk(rf'^{a}{a}$'), f'{b}{b}'),
         (_mk(rf'^{a}(?=$|\d|_|min|max|cen|pos|peak|idx|size|shape|border|stddev|sigma|fwhm|off|orig|start|stop|fs$|hw|len|'
              rf'grid|bins|range|coord|val|init|fit|err|centroid|cutout|index|indices|edge|extent|half|width|lo$|hi$|low|high|'
-             rf'new|old|arr|data|marg|weight|sum|mom|var|std|hat|tr$|rot|prime|name|c$|p$|s$|i$|t$|m$|d$|w$|r$|n$|values?$)'), b),
+             rf'new|old|arr|data|marg|col|mirror|masked|weight|sum|mom|var|std|hat|tr$|rot|prime|name|c$|p$|s$|i$|t$|m$|d$|w$|r$|n$|values?$)'), b),
         (_mk(rf'_{a}(?=$|\d|_|min|max|cen|pos|peak|idx|centroid|origin|stddev|fwhm|index|indices|name|shape|size)'), f'_{b}'),
     ]
 _FLIPS_ALL = _FLIPS
@@ -111,6 +111,13 @@ def tag(e):
             return None
         if isinstance(base_t, str):
             return base_t     # element / slice of an x-array is still an x-quantity
+        if base_t is None:
+            # row[xcolname], table['x_fit']: a column selected by an x/y-named key
+            key = e.slice
+            kt = name_tag(key.id) if isinstance(key, ast.Name) else \
+                name_tag(key.value) if isinstance(key, ast.Constant) and isinstance(key.value, str) and key.value.isidentifier() else None
+            if isinstance(kt, str):
+                return kt
         return None
     if isinstance(e, ast.UnaryOp):
         return tag(e.operand)
